@@ -247,10 +247,11 @@ inductive UrlOutcome
 deriving DecidableEq, Repr
 
 /-- `get_adjusted_url(url, addr)` on the URL grammar, with the reason when nothing is adjusted.
-    `unmodelled`: non-printable or non-ASCII bytes, userinfo, IPvFuture, IPv4-suffixed IPv6. -/
+    `unmodelled`: control bytes (urlsplit strips some), blanks / non-ASCII in the network location, userinfo,
+    IPvFuture, IPv4-suffixed IPv6.  Blanks and non-ASCII text in path / query / fragment are modelled. -/
 def urlOutcome (url : Bytes) (a : Addr) : UrlOutcome :=
   if !(a.v6 ∧ a.scope ≠ 0) then .same .notScoped
-  else if !url.all (fun b => 33 ≤ b && b ≤ 126) then .unmodelled
+  else if !url.all (fun b => (32 ≤ b && b ≤ 126) || 128 ≤ b) || url.head? == some 32 then .unmodelled
   else
     -- scheme
     let (scheme, rest) :=
@@ -262,7 +263,7 @@ def urlOutcome (url : Bytes) (a : Addr) : UrlOutcome :=
       let rest2 := rest.drop 2
       let netloc := rest2.takeWhile (fun b => b != 47 && b != 63 && b != 35)
       let tail := rest2.dropWhile (fun b => b != 47 && b != 63 && b != 35)
-      if netloc.contains 64 then .unmodelled
+      if netloc.contains 64 || !netloc.all (fun b => 33 ≤ b && b ≤ 126) then .unmodelled
       else
         let hasO := netloc.contains 91
         let hasC := netloc.contains 93
@@ -344,9 +345,10 @@ def extras (pairs : List (Bytes × Bytes)) (udn : Option Bytes) (a0 : Addr) : Py
   if allPyWs location then extra
   else PyDict.set (PyDict.set extra kLocOrig (.str location)) kLocation (adjVal location a0)
 
-/-- `CaseInsensitiveDict(parsed_headers, **extra)` -/
+/-- `CaseInsensitiveDict(parsed_headers).combine_lower_dict(extra)`: the own data wins over received
+    headers in whatever case they are spelled -/
 def headersOf (pairs : List (Bytes × Bytes)) (udn : Option Bytes) (a0 : Addr) : Hdrs :=
-  CIDict.ofDict lower (PyDict.merge (mdToDict pairs) (extras pairs udn a0))
+  CIDict.combineLower (CIDict.ofDict lower (mdToDict pairs)) (extras pairs udn a0)
 
 /-- `_cached_decode_ssdp_packet(data, remote_addr_without_port)` -/
 def decodeCore (data : Bytes) (a0 : Addr) : Except Exn (Bytes × Hdrs) :=
